@@ -22,16 +22,18 @@ from harness import core
 from harness import c05_lib as L
 from harness import c05_families as FAM
 from harness import extract_rules
+from harness import c05_families2 as FAM2
 
 PROP_MODULES = ["OV.Props.C05"]
 
 QUICK_N = {"clipclip": 170, "cliprelu": 70, "reluclip": 90, "relurelu": 6, "minmax": 220, "unit": 220, "dropout": 30, "cast": 110,
            "perm": 120, "axes": 100, "reshape": 260, "slice": 150, "scatter": 90, "gemm": 140, "pad": 170, "normpad": 110,
-           "bias": 50, "bn": 110, "expandbin": 200, "misc": 90}
+           "bias": 50, "bn": 110, "expandbin": 200, "misc": 20, "matmul": 200, "hardswish": 120, "convaffine": 70,
+           "dynscatter": 60, "slicesplit": 90, "ccos": 40}
 
 
 def families():
-    return {f.name: f for f in FAM.all_families()}
+    return {f.name: f for f in FAM.all_families() + FAM2.more_families()}
 
 
 def split_hyp(s: str):
@@ -75,7 +77,7 @@ def evaluate(fam, case, drv_answer: str, np_rng, n_inputs: int = 5) -> dict:
     rec["oracle"] = None
     if impl.startswith("fire"):
         feeds = [hst.make_feeds(np_rng) for _ in range(getattr(fam, "n_inputs", n_inputs))]
-        status, detail = L.oracle(before, after, feeds, exact=fam.exact, prefer=getattr(fam, "prefer", "ort"))
+        status, detail = L.oracle(before, after, feeds, exact=fam.exact, prefer=getattr(fam, "prefer", "ort"), tol=getattr(fam, "tol", None))
         rec["oracle"] = status
         rec["oracle_detail"] = detail
         if status in ("same", "differ", "after_error"):
